@@ -58,6 +58,11 @@ CHECKS = {
          "Because the search sees the function only through sign f(p), TLC's adversary construction covers every root (dyadic or not) up to 2^AMax widths away and every (max_iter, tol) of the grid: Bracket, Accurate, iteration bounds and termination are checked in every state. The code is bound to it in both directions: behaviours -> real runs (points compared one by one in exact dyadic arithmetic; accuracy judged at generous max_iter), real randomised runs -> trace validation.",
          "Functions are continuous and strictly increasing (recorded signs are checked to be monotone). float64. Accuracy is judged only for runs that max_iter cannot have cut short; evaluation-point equality, exact-hit return and bracket discipline are implementation-layer (drift notes, not violations).",
          "DESIGN.md 4.3, 5 (C10)"),
+ "C11": ("exploration",
+         "TLA+ history machine over raw parameter leaves (Params.tla; TLC -simulate produces the update histories) bound to real models by trace validation: the abstraction of the constrained values recorded after every update is validated by TLC against Trace_Params.tla; constructor round trips and rejections judged directly",
+         "Every TLC history (set a leaf / one element / alternating signs / a ramp to any grid value in +-50) is applied with eqx.tree_at to Affine, Scale, TriangularAffine, StudentT, Normal, Exponential, mixture, two splines, planar (tanh, leaky 0.1, leaky 2.0), weight normalisation and a masked autoregressive flow with the min-scale affine, in float64 and float32, plus real optimisers with absurd learning rates; after every update the clauses (strictly positive, normalised, knots strictly increasing and spanning the interval, derivatives >= min_derivative, planar invertible, rows keep their norm) are recorded and TLC rejects any history in which one fails. Round trips over magnitudes 1e-6..1e6 and rejection of every invalid argument class the property names.",
+         "Exploration level: that softplus / softmax outputs stay positive in floating point is decided by running the code; the specification contributes the histories and the single statement of the invariants. Three known findings are listed in known_findings.json (planar w.u underflow, planar w == 0, weight-normalised zero row).",
+         "DESIGN.md 4.10, 5 (C11)"),
  "C12": ("model_checking",
          "TLA+ machine over wrapper trees (Unwrap.tla: build / unwrap / train phases) model-checked with TLC; every tree TLC prints is built from the real wrapper classes and flowjax.wrappers.unwrap compared with TLC's term; per-leaf digest traces of both real training loops validated by TLC against Trace_Unwrap.tla",
          "TLC enumerates every wrapper tree up to 5 (quick) / 7 (thorough) nodes over the five wrapper kinds, containers and vmapped construction, checks ExactlyOnce / InnerFirst for every order the recursion may take and FrozenBitIdentical under arbitrary optimiser steps; each tree is an implementation test (value of unwrap = TLC's term, idempotence, no wrapper left, parameter count of the ravelled constructor = TLC's trainable set) and, for a third of them, a training run of either loop with the counting optimiser, SGD(lr=1e3) or Adam whose digests TLC validates. Real flows with frozen subsets and method transparency (m vs unwrap(m), bit-identical) complete it.",
